@@ -777,7 +777,7 @@ func init() {
 			// never-ending programs on an address-consistent bus, cancelled at the at-th bus access
 			maxAt := 6
 			if tier == "thorough" {
-				maxAt = 16
+				maxAt = 10
 			}
 			for kind := 0; kind <= 13; kind++ {
 				for at := 0; at <= maxAt; at++ {
